@@ -74,7 +74,7 @@ func excluded(k *Case) string {
 	case trigIncDecUintptr:
 		return "" // F-C02-3 is repaired in /repo: back in the bulk programs
 	case trigIfaceAssign:
-		return "F-C02-7 " + k.Site.Fam
+		return "" // F-C02-7 is repaired in /repo (17f31e6): back in the bulk programs
 	}
 	return ""
 }
